@@ -16,6 +16,9 @@ pub struct C12;
 pub enum Perturb {
     /// minute offset on PRAYERS[key]
     MinuteOffset { key: u8, minutes: F },
+    /// minute offset on PRAYERS[key] constructed from the unperturbed time so that the shifted time lands `delta_s`
+    /// seconds before (negative) or after (positive) midnight; used only when that offset is within [-90, 90] min
+    MinuteOffsetToMidnight { key: u8, delta_s: F },
     FajrInterval(F),
     IshaInterval(F),
     ImsaakInterval(F),
@@ -94,6 +97,8 @@ impl Prop for C12 {
         let weather = (100.0..=1050.0f64, -90.0..=57.0f64).prop_map(|(p, t)| WeatherSpec { pressure: F(p), temperature: F(t) });
         let perturb = prop_oneof![
             7 => (0u8..7, minutes).prop_map(|(key, m)| Perturb::MinuteOffset { key, minutes: F(m) }),
+            2 => (1u8..7, prop_oneof![Just(-0.4), Just(0.4), Just(-1.6), Just(1.6), -3.0..=3.0f64, -0.01..=0.01f64])
+                .prop_map(|(key, d)| Perturb::MinuteOffsetToMidnight { key, delta_s: F(d) }),
             2 => interval().prop_map(|m| Perturb::FajrInterval(F(m))),
             2 => interval().prop_map(|m| Perturb::IshaInterval(F(m))),
             3 => interval().prop_map(|m| Perturb::ImsaakInterval(F(m))),
@@ -121,6 +126,7 @@ impl Prop for C12 {
         st.eval();
         let mut spec = ParamSpec::plain(c.method);
         let angle_kind = matches!(c.perturb, Perturb::FajrAngle(_) | Perturb::IshaAngle(_));
+        let _ = &c.perturb;
         spec.policy = if angle_kind {
             ANGLE_POLICIES[c.angle_policy as usize % ANGLE_POLICIES.len()]
         } else if c.default_policy {
@@ -147,9 +153,41 @@ impl Prop for C12 {
                 st.class("base_with_user_intervals");
             }
         }
+        prime(&c.site, &spec, c.date, None, prime_selector(&c.site, c.date));
         let base = compute(&c.site, &spec, c.date, None);
         let mut nontrivial = false;
-        match &c.perturb {
+        // resolve the constructed offset into an ordinary one
+        let resolved;
+        let perturb: &Perturb = match &c.perturb {
+            Perturb::MinuteOffsetToMidnight { key, delta_s } => {
+                // the generated key, or - if that prayer is more than 90 minutes from midnight - the prayer nearest to midnight
+                let mut best: Option<(u8, i64)> = t(&base, PRAYERS[*key as usize]).map(|x| (*key, x));
+                if best.map_or(true, |(_, x)| gen::circ_diff(x, 0).abs() > 5300) {
+                    for k in 1u8..7 {
+                        if let Some(x) = t(&base, PRAYERS[k as usize]) {
+                            if best.map_or(true, |(_, b)| gen::circ_diff(x, 0).abs() < gen::circ_diff(b, 0).abs()) {
+                                best = Some((k, x));
+                            }
+                        }
+                    }
+                }
+                let Some((key, t0)) = best else {
+                    st.skip("offset_to_midnight_prayer_invalid");
+                    return Ok(());
+                };
+                // target clock time: delta_s relative to midnight, whichever midnight is nearer
+                let m = if t0 <= 43200 { (-(t0 as f64) + delta_s.0) / 60.0 } else { ((86400 - t0) as f64 + delta_s.0) / 60.0 };
+                if m.abs() > 90.0 {
+                    st.skip("offset_to_midnight_would_exceed_90_minutes");
+                    return Ok(());
+                }
+                st.class("kind_minute_offset_landing_next_to_midnight");
+                resolved = Perturb::MinuteOffset { key, minutes: F(m) };
+                &resolved
+            }
+            other => other,
+        };
+        match perturb {
             Perturb::MinuteOffset { key, minutes } => {
                 let mut s2 = spec.clone();
                 let mut m = [F(0.0); 7];
@@ -352,6 +390,7 @@ impl Prop for C12 {
                 }
                 st.class("kind_weather");
             }
+            Perturb::MinuteOffsetToMidnight { .. } => unreachable!(),
             Perturb::DefaultWeather => {
                 let o = compute(&c.site, &spec, c.date, Some(WeatherSpec { pressure: F(1010.0), temperature: F(14.0) }));
                 unchanged_except(&base, &o, &[], "default-weather-vs-absent")?;
